@@ -9,7 +9,7 @@ CONSTANTS MaxPresent, WithFx
 Pal == [n |-> <<1000, 3500>>, m |-> <<4000, 9000>>, s |-> <<0, 1500>>, a |-> <<500, 250>>, e |-> <<40, 60>>, d |-> <<TRUE>>, R |-> <<TRUE>>,
         u |-> <<"0", "1", "mix">>, M |-> <<6000, 14500>>, r |-> <<8000>>, c |-> <<2>>, w |-> <<4>>, f |-> <<"raw", "wav">>, L |-> <<TRUE>>, q |-> <<TRUE>>,
         O |-> <<"stream">>, o |-> <<"regions">>, j |-> <<0, 2500>>,
-        C |-> <<"consume">>, E |-> <<TRUE>>, G |-> <<"debug">>, D |-> <<TRUE>>, T |-> <<"raw">>, P |-> <<"image">>]
+        C |-> <<"consume">>, E |-> <<TRUE>>, G |-> <<"debug">>, D |-> <<TRUE>>, T |-> <<"raw">>, P |-> <<"image">>, I |-> <<2>>, F |-> <<256>>]
 VARIABLES o
 \* C15: the listed options only; X04: at least one side-effect option among them
 Subsets == IF WithFx THEN {S \in SUBSET (OptNames \cup FxNames) : Cardinality(S) <= MaxPresent /\ S \cap FxNames # {}}
@@ -23,7 +23,7 @@ Sane == /\ Exit(o) \in {0, 1} /\ (Exit(o) = 1 => ~Prints(o) /\ ~SavesStream(o) /
         /\ (\A k \in OptNames \ DOMAIN o : Eff(o, k) = Defaults[k])
         /\ (Exit(o) = 1 => ~RunsCommands(o) /\ ~Echoes(o) /\ ~LogsToFile(o) /\ ~Plots(o))
 Export == PrintT(ToJson([opts |-> [k \in DOMAIN o |-> o[k]], present |-> DOMAIN o, kw |-> Kwargs(o), exit |-> Exit(o), prints |-> Prints(o),
-                         stream |-> SavesStream(o), joins |-> JoinsEvents(o), regions |-> SavesRegions(o), outfmt |-> OutFormat(o)]))
+                         stream |-> SavesStream(o), joins |-> JoinsEvents(o), regions |-> SavesRegions(o), outfmt |-> OutFormat(o), micopen |-> MicOpen(o)]))
 \* field decomposition: for every whole-millisecond value W there is exactly one admissible field tuple
 Decomp(W) == <<W \div 3600000, (W \div 60000) % 60, (W \div 1000) % 60, W % 1000>>
 FieldsOK == \A base \in {0, 1000, 59000, 60000, 3599000, 3600000, 86399000, 360000000} : \A dlt \in 0..2 :
